@@ -1,15 +1,14 @@
 /-
   Spec.OrderDomain — the domain D of the C11 theorems as decidable predicates, written as lists
-  of *reasons* a case lies outside it.  Each reason is a named exclusion class:
+  of *reasons* a case lies outside it.  Each reason is a named exclusion class (no known finding
+  is left among them: `emptyslice`, `objectid` and `arraykey` were repaired in the library and
+  their classes removed):
 
-    known findings (the unchanged code departs from the rule; witnesses in known_findings.json)
-      arraykey    a sort key reaches an array / several values: mongomock sorts by the first
-                  one, MongoDB by the smallest (ascending) or largest (descending)
-      objectid    a sort key reaches an ObjectId: mongomock.ObjectId has no ordering, the sort
-                  raises TypeError as soon as two of them are compared
-      emptyslice  the cursor slice `[a:a]`: stored as limit 0, which means "no limit"
     scope limits (nothing is claimed)
+      genoid      a sort key reaches an ObjectId the library generated (number ≥ `oidFresh`):
+                  its value, hence its place in the order, is not modelled
       dockey      a sort key reaches an embedded document (order of documents not in the oracle)
+      nestedarray a sort key reaches an array inside an array (order of arrays not in the oracle)
       awaredate   a sort key reaches a timezone-aware datetime (stored datetimes are naive)
       badpath     a path the traversal model does not follow (empty component, negative index)
       dollarkey   a `$`-prefixed sort key other than a lone `$natural`
@@ -22,21 +21,25 @@ import Spec.Order
 namespace MongoModel.Spec.Order
 open MongoModel
 
+/-- why a value compared as a sort key is outside the domain -/
 def valReasons : Val → List String
-  | .arr _ => ["arraykey"]
-  | .oid _ => ["objectid"]
+  | .arr _ => ["nestedarray"]
+  | .oid n => if n < oidFresh then [] else ["genoid"]
   | .doc _ => ["dockey"]
   | .date _ (some _) => ["awaredate"]
   | _ => []
+
+/-- …of one reached value: an array stands for its elements -/
+def candReasons : Option Val → List String
+  | none => []
+  | some (.arr xs) => xs.flatMap valReasons
+  | some v => valReasons v
 
 /-- why the sort key of document `d` under `key` is outside the domain -/
 def keyReasons (key : String) (d : Val) : List String :=
   match candsKey key d with
   | .error _ => ["badpath"]
-  | .ok [] => []
-  | .ok [none] => []
-  | .ok [some v] => valReasons v
-  | .ok _ => ["arraykey"]
+  | .ok cs => cs.flatMap candReasons
 
 def specReasons (spec : SortSpec) (docs : List Val) : List String :=
   spec.flatMap (fun kd =>
@@ -54,7 +57,7 @@ def sortReasons (sort : Option SortSpec) (docs : List Val) : List String :=
 def sortD (sort : Option SortSpec) (docs : List Val) : Bool := (sortReasons sort docs).isEmpty
 
 def windowReasons (s : Settings) : List String :=
-  (if s.skip < 0 then ["negskip"] else []) ++ (if s.limit = some 0 then ["emptyslice"] else [])
+  if s.skip < 0 then ["negskip"] else []
 
 /-- reasons of a whole `find` case: the settings the calls end with, and the documents -/
 def findReasons (s0 : Settings) (ops : List CurOp) (docs : List Val) : List String :=
